@@ -1,5 +1,7 @@
 package yang
 
+import "strconv"
+
 // C14 - enum values and bit positions are assigned as RFC 7950 9.6.4.2 / 9.7.4.2 say.
 // Units: types_builtin.go NewEnumType/NewBitfield, (*EnumType).Set/SetNext, NameMap, ValueMap,
 // Names, Values. Oracle: the RFC rule over exact integers (mInt).
@@ -96,5 +98,53 @@ func H14a() {
 	for i := 1; i < len(ns); i++ {
 		check(ns[i-1] < ns[i], "Names() is sorted and duplicate-free")
 		check(vs[i-1] <= vs[i], "Values() is sorted")
+	}
+}
+
+// H14u: the use site. `enum a { value V; } enum b;` (or bits with `position`) through the whole
+// pipeline, V the decimal spelling of an arbitrary 64-bit magnitude with optional sign: the conversion
+// of the value text (ParseInt -> Int -> Set) must not wrap.
+func H14u() {
+	bits := param("bits") == 1
+	// the literal is the decimal spelling of an arbitrary 64-bit magnitude (all digit counts
+	// 1..20; the digits are tied to the value by the quotient chain of the FormatUint intrinsic)
+	neg := symBool()
+	v := symU64()
+	val := mU(v)
+	lit := strconv.FormatUint(v, 10)
+	if neg {
+		lit = "-" + lit
+		val = mNeg(val)
+	}
+	var ty string
+	lo, hi := mI(MinEnum), mI(MaxEnum)
+	if bits {
+		ty = `type bits { bit a { position ` + lit + `; } bit b; }`
+		lo, hi = mI(0), mI(MaxBitfieldSize-1)
+	} else {
+		ty = `type enumeration { enum a { value ` + lit + `; } enum b; }`
+	}
+	note(ty)
+	ms, lerrs := hLoad(`module m { namespace "urn:m"; prefix m; leaf l { ` + ty + ` } }`)
+	check(len(lerrs) == 0, "the module parses")
+	errs := ms.Process()
+	// a is in range; b = a+1 must not exceed the maximum
+	inRange := symAnd(mLe(lo, val), mLess(val, hi))
+	if len(errs) > 0 {
+		reach("rejected")
+		check(symNot(inRange), "an explicit value in range followed by an automatic one below the maximum is accepted")
+		return
+	}
+	reach("accepted")
+	check(inRange, "a value or position outside the type's range (or an automatic value above the maximum) is an error - the text is converted without wrapping")
+	e := ToEntry(ms.Modules["m"]).Dir["l"]
+	et := e.Type.Enum
+	if bits {
+		et = e.Type.Bit
+	}
+	check(et != nil, "member set resolved")
+	if et != nil {
+		check(mEq(mI(et.Value("a")), val), "the explicit member has exactly the written value")
+		check(mEq(mI(et.Value("b")), mAdd(val, mI(1))), "the automatic member is one more than the highest so far")
 	}
 }
